@@ -18,6 +18,9 @@
 EXTENDS Naturals, FiniteSets, TLC
 
 CONSTANTS N, Apis, Modes, LossKinds,
+          PriorOp,     \* "none" | "shutdown_read": what the application did on the channel before the calls are made.
+                       \* shutdown_read() / shutdown(2) set eof_received WITHOUT closing the input pipes ("feign")
+          EofGuardOnClose, \* _set_closed closes the input pipes only `if not eof_received` (must be refuted)
           Role,        \* "server" | "client": the role of the modelled transport.  accept() is the same code in both
                        \* (a client gets forwarded-tcpip / x11 / agent channels through it), and so is the shutdown
           WakeOnlyServer, \* the wake-up of accept() at the end of run() is made only `if self.server_mode` (must be refuted)
@@ -109,7 +112,9 @@ TimedWaits == {"recv_wait", "send_wait", "oc_poll", "au_poll", "ac_wait", "px_re
 
 Init ==
   /\ active = TRUE /\ pclosed = FALSE /\ sclosed = FALSE /\ tt = "run" /\ cl = "idle" /\ loss = "none"
-  /\ ch = [linked |-> TRUE, closed |-> FALSE, event |-> FALSE, ready |-> FALSE, status |-> FALSE]
+  /\ ch = [linked |-> TRUE, closed |-> FALSE, event |-> FALSE, ready |-> FALSE, status |-> FALSE,
+           eofr |-> (PriorOp = "shutdown_read"),     \* Channel.eof_received
+           pipes |-> FALSE]                          \* in_buffer / in_stderr_buffer closed (what recv waits for)
   /\ completion = TRUE /\ authev = "none" /\ svc = FALSE
   /\ ocreg = {} /\ ocev = {} /\ cvwait = {} /\ cvnote = {}
   /\ wpc = [w \in W |-> "idle"] /\ wapi = [w \in W |-> "none"] /\ wmode = [w \in W |-> "none"]
@@ -133,7 +138,8 @@ Lose(k) ==
 StreamEnded == loss \in StreamKinds \/ (loss = "proxy_exit" /\ FixProxy)
 
 Unlinked(c) == IF c.linked /\ ~c.closed
-               THEN [c EXCEPT !.closed = TRUE, !.event = TRUE, !.status = TRUE, !.linked = FALSE]
+               THEN [c EXCEPT !.closed = TRUE, !.event = TRUE, !.status = TRUE, !.linked = FALSE,
+                              !.pipes = IF EofGuardOnClose /\ c.eofr THEN c.pipes ELSE TRUE]
                ELSE c
 
 wvars == <<wpc, wapi, wmode, wres, wphase>>
@@ -231,9 +237,9 @@ Call(w, api, mode) ==
 
 (* Channel.recv -> BufferedPipe.read: under the pipe's lock: closed -> b""; else cv.wait (close() notifies all) *)
 RecvLock(w) == /\ wpc[w] = "recv_lock"
-               /\ IF ch.closed THEN Finish(w, "returned") ELSE Goto(w, "recv_wait")
+               /\ IF ch.pipes THEN Finish(w, "returned") ELSE Goto(w, "recv_wait")
                /\ Keep /\ UNCHANGED shared
-RecvWake(w) == /\ wpc[w] = "recv_wait" /\ ch.closed /\ Finish(w, "returned")
+RecvWake(w) == /\ wpc[w] = "recv_wait" /\ ch.pipes /\ Finish(w, "returned")
                /\ Keep /\ UNCHANGED shared
 (* Channel._send under the channel lock: closed -> socket.error; window left -> the data message goes out via  *)
 (* _send_user_message; window 0 -> out_buffer_cv.wait; _set_closed                                            *)
@@ -400,6 +406,7 @@ ResultsInTable == \A w \in W : wres[w] # "none" => wres[w] \in Results(Family(wa
 (* the shutdown block clears `active` before anything is closed, and closes the packetizer before the socket *)
 Order == /\ (pclosed => ~active \/ Omit = "clear")
          /\ (tt = "dead" => sclosed)
+         /\ (ch.closed => ch.pipes \/ EofGuardOnClose)     \* a closed channel has closed input pipes
 
 (* liveness *)
 Inactive == (loss # "none") ~> ~active
